@@ -74,7 +74,16 @@ def gen_source(rng, hazardous=True) -> Src:
 
     def bc(did, depth):
         t = "/* " + comment_text(rng, hazardous) + " */"
-        if hazardous and rng.random() < 0.25:
+        if rng.random() < 0.2:
+            # several lines (continuation lines carry their own indentation), at any nesting level
+            t = "/* " + (comment_text(rng, False) or "a") + "\n" + ind(depth) + " * " + (comment_text(rng, False) or "b") + "\n" + ind(depth) + " */"
+            s.nontrivial = True
+        elif hazardous and rng.random() < 0.1:
+            # characters that str.splitlines() takes for line boundaries (form feed, vertical tab, separators, NEL, LS) in the
+            # middle of a block comment: part of its text
+            t = "/* " + (comment_text(rng, False) or "page") + rng.choice(["\x0c", "\x0b", "\x1d", "\x85", "\u2028"]) + "break */"
+            s.nontrivial = True
+        elif hazardous and rng.random() < 0.25:
             # boxed / banner style: runs of stars of either parity at both ends
             body = comment_text(rng, hazardous)
             t = rng.choice(["/** " + body + " **/", "/*** " + body + " ***/", "/*" + "*" * rng.randrange(1, 9) + "/", "/* " + body + " ****/"])
